@@ -208,6 +208,14 @@ def parse_kani(out):
     m = re.search(r"Verification Time: ([0-9.]+)s", out)
     if m:
         r["verif_time"] = float(m.group(1))
+    m = re.search(r"size of program expression: (\d+) steps", out)
+    r["ssa_steps"] = int(m.group(1)) if m else 0
+    m = re.search(r"Generated (\d+) VCC\(s\), (\d+) remaining after simplification", out)
+    r["vccs"] = int(m.group(1)) if m else 0
+    r["vccs_remaining"] = int(m.group(2)) if m else 0
+    m = re.search(r"(\d+) variables, (\d+) clauses", out)
+    r["sat_vars"] = int(m.group(1)) if m else 0
+    r["sat_clauses"] = int(m.group(2)) if m else 0
     # Check N: name \n - Status: X \n - Description: "..." \n - Location: file:line:col in function f
     for m in re.finditer(r"Check \d+: ([^\n]+)\n\s+- Status: (\w+)\n\s+- Description: \"([^\n]*)\"\n(?:\s+- Location: ([^\n]*)\n)?", out):
         name, st, desc, loc = m.group(1), m.group(2), m.group(3), m.group(4) or ""
@@ -271,8 +279,8 @@ def run_harness(h, tier, playback=False, keep=False):
     t0 = time.time()
     try:
         z = ["-Z", "unstable-options"]
-        if h["stubs"]:
-            z += ["-Z", "stubbing"]
+        # always on: most harnesses mount stubs (recorded per harness in the evidence)
+        z += ["-Z", "stubbing"]
         # reachability ("UNREACHABLE") classification costs one SAT call per check and is not
         # used by any verdict here (vacuity is guarded by cover witnesses and twins)
         base = ["cargo", "kani"] + z + ["--no-assertion-reach-checks", "--harness", h["fq"], "--exact",
@@ -309,7 +317,8 @@ def run_harness(h, tier, playback=False, keep=False):
         pr = parse_kani(out)
         res.update(checks_total=pr["checks_total"], checks_failed=pr["checks_failed"],
                    covers=pr["covers"], unreachable=pr["unreachable"], undetermined=pr["undetermined"],
-                   solver_s=pr["verif_time"], failed=pr["failed"])
+                   solver_s=pr["verif_time"], failed=pr["failed"], ssa_steps=pr["ssa_steps"], vccs=pr["vccs"],
+                   vccs_remaining=pr["vccs_remaining"], sat_vars=pr["sat_vars"], sat_clauses=pr["sat_clauses"])
         if to:
             res["verdict"] = "TIMEOUT"
         elif pr.get("ice"):
@@ -548,6 +557,33 @@ def main():
         else:
             inconclusive.append((r, "counterexample does not reproduce on the real crate (encoding/model error)"))
 
+    # model-vs-implementation validation: the counterexample of every reachability twin (a trace
+    # through the encoding that the solver produced) is replayed on the REAL crate, where the twin's
+    # assertion must fail as well. Cheap twins only in the quick tier.
+    traces_validated = 0
+    twin_replays = []
+    for r in results:
+        if r.get("outcome") != "twin-failed-as-required" or os.environ.get("VERIF_NO_REPLAY"):
+            continue
+        if args.tier == "quick" and (r.get("wall_s") or 1e9) > float(os.environ.get("VERIF_TWIN_REPLAY_MAX_S", "60")):
+            twin_replays.append({"harness": r["name"], "replayed": False, "why": "twin too expensive for the quick tier"})
+            continue
+        h = byname[r["name"]]
+        pr = run_harness(h, args.tier, playback=True)
+        ok = False
+        for one in (pr.get("playback_values") or [])[:4]:
+            rep, _txt = replay_native(h, one)
+            if rep:
+                ok = True
+                break
+        twin_replays.append({"harness": r["name"], "replayed": True, "reproduced_on_real_crate": ok})
+        if ok:
+            traces_validated += 1
+        else:
+            inconclusive.append((r, "the twin's counterexample does not reproduce on the real crate: model and implementation disagree"))
+    # violations replayed and confirmed natively are validated traces as well
+    traces_validated += len(violations)
+
     # evidence -------------------------------------------------------------------------------
     passed = [r for r in results if r.get("outcome") == "held"]
     twins = [r for r in results if r.get("outcome") == "twin-failed-as-required"]
@@ -561,6 +597,7 @@ def main():
             "cbmc_checks": r.get("checks_total"), "cbmc_failed": r.get("checks_failed"),
             "cbmc_unreachable": r.get("unreachable"), "cover_witnesses": r.get("covers"),
             "solver_s": r.get("solver_s"), "wall_s": r.get("wall_s"), "desc": h["desc"],
+            "ssa_steps": r.get("ssa_steps"), "vccs": r.get("vccs"), "sat_variables": r.get("sat_vars"), "sat_clauses": r.get("sat_clauses"),
         })
     ev = {
         "property_id": prop, "tier": args.tier, "seed": seed, "level": "model_checking",
@@ -572,6 +609,18 @@ def main():
                     "unwinding assertions passed, and every kani::cover! witness of the harness is SATISFIED; "
                     "reachability twins (expect=fail) are not counted",
             "samples": samples,
+            # model-checking keys, all measured from this run's CBMC output:
+            #   states      = verification conditions generated (one per checked property instance at one
+            #                 symbolic program state of the unwound program), summed over the harnesses that held
+            #   transitions = SSA steps of the unwound programs (symbolic execution steps encoded for the solver)
+            #   traces_validated_against_impl = solver-produced traces (counterexamples of reachability twins,
+            #                 confirmed violations) re-run on the REAL crate with the same outcome
+            "states": sum((r.get("vccs") or 0) for r in passed),
+            "transitions": sum((r.get("ssa_steps") or 0) for r in passed),
+            "traces_validated_against_impl": traces_validated,
+            "twin_replays": twin_replays,
+            "sat_variables": sum((r.get("sat_vars") or 0) for r in passed),
+            "sat_clauses": sum((r.get("sat_clauses") or 0) for r in passed),
             "obligations": sum((r.get("checks_total") or 0) for r in passed),
             "discharged": sum((r.get("checks_total") or 0) - (r.get("checks_failed") or 0) for r in passed),
             "reachability_twins_failed_as_required": len(twins),
@@ -579,6 +628,8 @@ def main():
             "engine": "Kani 0.68.0 / CBMC 6.11.0 / CaDiCaL; unwinding assertions on",
             "sources_sha256": meta["sources_sha256"],
             "woven_lines": meta["appended_lines"],
+            "woven_substitutions": meta.get("substitutions"),
+            "extracted_items_sha256": meta.get("extracted_items_sha256"),
             "known_findings_matched": [k["_line"] for k, _fc, _r in known_hits],
             "inconclusive": [{"harness": r["name"], "why": why[:300]} for r, why in inconclusive],
             "exhaustive": False,
